@@ -380,6 +380,68 @@ fn op_strategy() -> impl Strategy<Value = Op> {
     ]
 }
 
+// ---- the context really is the handle that keeps the plugin loaded -----------------------------
+
+/// A history whose last step is a consuming call on the object that holds the LAST reference to
+/// the loaded library: the library is unloaded by that call, and the call must still return.
+#[derive(Debug, Clone, Serialize, Deserialize)]
+pub struct UnloadCase {
+    pub seed: u64,
+    /// further objects made from the same context, dropped (in this order, by index) before the last call
+    pub others: Vec<u8>,
+    /// 0: finish() on the maker; 1: into_counter() then drop the counter; 2: make a counter, drop the maker, drop the counter
+    pub last: u8,
+}
+
+fn still_mapped(path: &str) -> bool {
+    use libloading::os::unix::{Library, RTLD_LAZY};
+    const RTLD_NOLOAD: i32 = 4;
+    unsafe { Library::open(Some(path), RTLD_LAZY | RTLD_NOLOAD).is_ok() }
+}
+
+fn unload_check(path: &str, c: &UnloadCase) -> CaseResult {
+    let lib = unsafe { libloading::Library::new(path) }.map_err(|e| Fail::new("harness", format!("cannot load the plugin again: {e}")))?;
+    let create: unsafe extern "C" fn(&CArc<Void>, u64) -> MakerArcBox<'static> = unsafe { *lib.get(b"xm_create").map_err(|e| Fail::new("harness", format!("{e}")))? };
+    // as in the repository's plugin example: the context owns the library handle
+    let ctx: CArc<Void> = CArc::from(lib).into_opaque();
+    let mut objs: Vec<Option<MakerArcBox<'static>>> = (0..=c.others.len() as u64).map(|i| Some(unsafe { create(&ctx, c.seed.wrapping_add(i)) })).collect();
+    drop(ctx);
+    for k in &c.others {
+        let n = objs.len() - 1; // never the first one
+        let i = 1 + pick(*k as u16, n.max(1)) % n.max(1);
+        if let Some(o) = objs.get_mut(i).and_then(|o| o.take()) {
+            drop(o);
+        }
+    }
+    for o in objs.iter_mut().skip(1) {
+        drop(o.take());
+    }
+    ensure!(still_mapped(path), "harness", "the plugin is gone although an object with its context is alive");
+    let last = objs[0].take().unwrap();
+    let reference = MakerImp::new(c.seed);
+    match c.last % 3 {
+        0 => {
+            let r = last.finish();
+            ensure!(r == reference.finish(), "C05:unload-result", "finish() on the last holder returned {r:#x}, a host-local implementor {:#x}", MakerImp::new(c.seed).finish());
+        }
+        1 => {
+            let cnt = last.into_counter();
+            let r = cnt.get();
+            ensure!(r == reference.into_counter().get(), "C05:unload-result", "counter obtained from the last holder answers {r:#x}");
+            drop(cnt);
+        }
+        _ => {
+            let cnt = last.make(5);
+            drop(last);
+            let r = cnt.get();
+            ensure!(r == reference.make(5).get(), "C05:unload-result", "counter made by the last holder answers {r:#x}");
+            drop(cnt);
+        }
+    }
+    let gone = !still_mapped(path);
+    Ok(Info::new(gone).class(if gone { "unload:library-unmapped-by-the-last-release" } else { "unload:library-still-mapped" }).class(format!("unload:last{}", c.last % 3)))
+}
+
 fn main() {
     verifkit::quiet_panics();
     let args = Args::parse();
@@ -396,6 +458,14 @@ fn main() {
         let strat = (any::<u64>(), prop::collection::vec(op_strategy(), 1..40), prop::collection::vec(any::<u16>(), 0..12)).prop_map(|(seed, ops, drop_order)| Case { seed, ops, drop_order });
         ctx.run(&sub, cases, strat, |c| check(&pl, c));
     }
-    let code = ctx.finish("pairs (host build, plugin build) over {stable, nightly, 1.98.1, nightly-2026-08-21} x {debug, release} x randomized repr(Rust) layout seeds (nightly) x two distinct tagging global allocators; the plugin is a cdylib loaded with dlopen; histories: {make object / group through the plugin's vtable, call every Counter method (slices, strings, callbacks, iterators, options, results, int results, PODs), cast, clone through the group's Clone, drop in the host, CVec made in the plugin / in the host, grown in the host / in the plugin, consumed in the other module, CArc made in the plugin cloned/dropped in the host and vice versa (the context), CBox / CSliceBox from the plugin dropped in the host, consuming call}. Oracle: every result equals a host-local reference implementor; both tagging allocators see zero frees/reallocs of blocks they did not allocate; plugin live-instance and live-block counters return to their start values; host context count restored; layout digests agree. Non-trivial = a value created in one module is used, cloned, grown or destroyed in the other", &["four rustc versions of one LLVM family on one target"], false);
+    // from here on no symbol of the first handle may be used: the plugin gets unloaded and reloaded
+    if !ctx.failed() {
+        drop(pl);
+        let ustrat = (any::<u64>(), prop::collection::vec(any::<u8>(), 0..4), 0u8..3).prop_map(|(seed, others, last)| UnloadCase { seed, others, last });
+        let usub = format!("unload:{label}");
+        let p2 = plugin_path.clone();
+        ctx.run(&usub, (cases / 10).max(20), ustrat, |c| unload_check(&p2, c));
+    }
+    let code = ctx.finish("pairs (host build, plugin build) over {stable, nightly, 1.98.1, nightly-2026-08-21} x {debug, release} x randomized repr(Rust) layout seeds (nightly) x two distinct tagging global allocators; the plugin is a cdylib loaded with dlopen; histories: {make object / group through the plugin's vtable, call every Counter method (slices, strings, callbacks, iterators, options, results, int results, PODs), cast, clone through the group's Clone, drop in the host, CVec made in the plugin / in the host, grown in the host / in the plugin, consumed in the other module, CArc made in the plugin cloned/dropped in the host and vice versa (the context), CBox / CSliceBox from the plugin dropped in the host, consuming call; finally UNLOAD histories: the context is a CArc owning the dlopen handle itself, several objects are made from it, the host drops its own reference and all but one object, and the last holder is consumed (plain return / wrapped return dropped afterwards / child outliving its maker): the library is unmapped by that very release and the call must return the right value}. Oracle: every result equals a host-local reference implementor; both tagging allocators see zero frees/reallocs of blocks they did not allocate; plugin live-instance and live-block counters return to their start values; host context count restored; layout digests agree. Non-trivial = a value created in one module is used, cloned, grown or destroyed in the other", &["four rustc versions of one LLVM family on one target"], false);
     std::process::exit(code);
 }
